@@ -5,3 +5,5 @@ package dbkit
 func verifAwait(string, interface{}, func() bool) {}
 
 func verifClosed(<-chan struct{}) bool { return false }
+
+func verifReady(...bool) bool { return false }
